@@ -102,6 +102,10 @@ PROPS['C03'] = dict(modules=['Hagall.Props.C03'], profiles=['join', 'mixed', 'mo
                                     pred=lambda d: d.get('kind') != 'delivery' or d.get('conn') != d.get('actor')
                                     or bool(d['outs'] & {'sessionState', 'vikjaState', 'odalState'})))
 
+PROPS['C01'] = dict(modules=['Hagall.Props.C01'], profiles=['mixed', 'comp', 'module', 'pose', 'join'], n=(300, 5000), focus={'join', 'entityAdd', 'compAdd', 'action', 'assetAdd'},
+                    gen_args=['-flags', '-'],
+                    topics=slice_of(ALL_TOPICS + ['disconnect'], outs=RELAYS | {'sessionState', 'vikjaState', 'odalState', 'compAddBcast', 'compDeleteBcast', 'compUpdateBcast'}))
+
 # every property's obligations include the facts it rests on (regenerated from the source on every run)
 ABS = {'C14': ['Hagall.Gen.AbsCustom'], 'C17': ['Hagall.Gen.AbsFlags'], 'C04': ['Hagall.Gen.AbsDispatch'],
        'C18': ['Hagall.Gen.AbsLatency'], 'C19': ['Hagall.Gen.AbsChans'], 'C08': ['Hagall.Gen.AbsChans', 'Hagall.Gen.AbsDispatch']}
